@@ -23,6 +23,15 @@ use std::collections::BTreeMap;
 
 pub type Outputs = Vec<(String, Vec<u8>)>;
 
+/// Phase marker for the schedule simulation (no-op in the other builds): deviations are placed at the
+/// first instances of every library loop *per phase*, so that every operation of a flow gets its own.
+#[allow(unused_variables)]
+fn phase(n: &mut u64) {
+    *n += 1;
+    #[cfg(feature = "sim")]
+    rayon_core::sim::set_phase(*n);
+}
+
 fn sha(b: &[u8]) -> String {
     hex(&Sha256::digest(b))
 }
@@ -30,6 +39,8 @@ fn sha(b: &[u8]) -> String {
 /// One deterministic end-to-end flow of a trait scheme: keys, commitments, batch proof, decisions.
 fn flow<S: Sch>(cfg: &KeyCfg, seed: u64, big: Option<S::P>) -> Result<Outputs, String> {
     let mut out: Outputs = Vec::new();
+    let mut ph = 0u64;
+    phase(&mut ph);
     let keys = build_keys::<S>(cfg, seed).map_err(|o| format!("keys: {}", o.short()))?;
     out.push(("params".into(), ser(&keys.pp)));
     out.push(("committer-key".into(), ser(&keys.ck)));
@@ -39,6 +50,7 @@ fn flow<S: Sch>(cfg: &KeyCfg, seed: u64, big: Option<S::P>) -> Result<Outputs, S
         polys[0] = lp::<S>("p0", p, None, None);
     }
     let labels = slice_b_labels::<S>(cfg, seed);
+    phase(&mut ph);
     let c = commit_set::<S>(&keys, polys, seed, 0).map_err(|o| format!("commit: {}", o.short()))?;
     for (i, cm) in c.comms.iter().enumerate() {
         out.push((format!("commitment[{}]", i), ser(cm.commitment())));
@@ -49,25 +61,60 @@ fn flow<S: Sch>(cfg: &KeyCfg, seed: u64, big: Option<S::P>) -> Result<Outputs, S
         qs.insert((p.label().clone(), (labels[0].0.clone(), labels[0].1.clone())));
     }
     qs.insert((c.polys[0].label().clone(), (labels[2].0.clone(), labels[2].1.clone())));
+    phase(&mut ph);
     let b = open_batch::<S>(&keys, &c, &[0, 1, 2], &qs, 0, seed, 0).map_err(|o| format!("open: {}", o.short()))?;
     out.push(("batch-proof".into(), ser(&b.proof)));
     let comms: Vec<&LCm<S>> = c.comms.iter().collect();
+    phase(&mut ph);
     let d1 = check_batch::<S>(&keys, &comms, &qs, &b.evals, &b.proof, 0, seed, 0);
     let mut bad = b.evals.clone();
     *bad.values_mut().next().unwrap() += S::F::one();
+    phase(&mut ph);
     let d2 = check_batch::<S>(&keys, &comms, &qs, &bad, &b.proof, 0, seed, 0);
     out.push(("decisions".into(), format!("{}/{}", d1.class(), d2.class()).into_bytes()));
+    phase(&mut ph);
     if let Ok(s) = open_single::<S>(&keys, &c, &[0, 1], &labels[0].1, 0, seed, 0) {
         let bp: BPf<S> = vec![s.proof.clone()].into();
         out.push(("single-proof".into(), ser(&bp)));
+        phase(&mut ph);
         let d = check_single::<S>(&keys, &comms[..2], &labels[0].1, &s.values, &s.proof, 0, seed, 0);
         out.push(("single-decision".into(), d.class().as_bytes().to_vec()));
     }
+    // linear codes: a proof with TWO different defects (a column whose Merkle path does not verify and a
+    // column opened at a wrong position): the verdict (Ok(false) or Err) must be the one of the first
+    // defective column in list order, whatever the schedule
+    if S::NAME == "LIG" || S::NAME == "MLL" || S::NAME == "BRK" {
+        if let Ok(s) = open_single::<S>(&keys, &c, &[0], &labels[0].1, 0, seed, 0) {
+            let bp: BPf<S> = vec![s.proof.clone()].into();
+            let mps: Vec<Vec<crate::mirror::MProof<Fr381>>> = crate::mirror::convert(&bp);
+            let t = mps[0][0].opening.paths.len();
+            if t >= 4 {
+                for (a, b) in [(0usize, t - 1), (t - 1, 0), (1, t / 2), (t / 2, 1)] {
+                    let mut m = mps.clone();
+                    {
+                        let paths = &mut m[0][0].opening.paths;
+                        // a: the authentication data of another column; b: another position
+                        let donor = paths[(a + 1) % t].clone();
+                        paths[a].leaf_sibling_hash = donor.leaf_sibling_hash.clone();
+                        paths[a].auth_path = donor.auth_path.clone();
+                        paths[b].leaf_index ^= 1;
+                    }
+                    let bad: BPf<S> = crate::mirror::convert(&m);
+                    let list: Vec<Pf<S>> = bad.into();
+                    phase(&mut ph);
+                    let d = check_single::<S>(&keys, &comms[..1], &labels[0].1, &s.values, &list[0], 0, seed, 0);
+                    out.push((format!("decision/two-defects({},{})", if a < b { "path-first" } else { "index-first" }, if a == 0 || b == 0 { "ends" } else { "inner" }), d.class().as_bytes().to_vec()));
+                }
+            }
+        }
+    }
     // structured points (coordinates 0 and 1): tensors and powers with zero entries
     for (pn, z) in S::points(cfg, seed).into_iter().filter(|(n, _)| n == "0" || n == "zeros" || n == "mixed" || n == "ones") {
+        phase(&mut ph);
         if let Ok(s) = open_single::<S>(&keys, &c, &[0], &z, 0, seed, 0) {
             let bp: BPf<S> = vec![s.proof.clone()].into();
             out.push((format!("proof@{}", pn), ser(&bp)));
+            phase(&mut ph);
             let d = check_single::<S>(&keys, &comms[..1], &z, &s.values, &s.proof, 0, seed, 0);
             out.push((format!("decision@{}", pn), d.class().as_bytes().to_vec()));
         }
@@ -339,9 +386,9 @@ pub fn run(rec: &mut Rec) {
         (a, b, c)
     };
     // deviation targets: the first K dynamic instances of every distinct library loop (join site)
-    let per_site = if rec.thorough() { 8 } else { 2 };
+    let per_site = if rec.thorough() { 4 } else { 1 };
     let pools: Vec<usize> = if rec.thorough() { vec![2, 3, 4, 5] } else { vec![2, 3] };
-    rec.scope(format!("schedule exploration under the simulated rayon scheduler: {} items x simulated pool sizes {:?}; default tape, then every tape deviating at one join ({} joins; the first {} dynamic instances of every distinct loop) by each of the 7 non-default (order, migrated-a, migrated-b) choices{}", ITEMS.len(), pools, if rec.thorough() { "all" } else { "library-owned" }, per_site, if rec.thorough() { "; pairs of owned joins (k = 2)" } else { "" }));
+    rec.scope(format!("schedule exploration under the simulated rayon scheduler: {} items x simulated pool sizes {:?}; default tape, then every tape deviating at one join ({} joins; the first {} dynamic instances of every distinct loop in every phase (operation) of the flow) by each of the 7 non-default (order, migrated-a, migrated-b) choices{}", ITEMS.len(), pools, if rec.thorough() { "all" } else { "library-owned" }, per_site, if rec.thorough() { "; pairs of owned joins (k = 2)" } else { "" }));
     for item in ITEMS.iter() {
         let mut want: Option<BTreeMap<String, String>> = None;
         for threads in pools.iter().copied() {
